@@ -181,5 +181,5 @@ def build():
 
 
 ISAS = [
-    Isa("Z80", "Z80", build(), "intel", slot=8, base=0x1000, offsets=[0, 1, 3], golden=[("t_z380", {"z380": True, "z80undoc": True})]),
+    Isa("Z80", "Z80", build(), "intel", pcsym="$", slot=8, base=0x1000, offsets=[0, 1, 3], golden=[("t_z380", {"z380": True, "z80undoc": True})]),
 ]
